@@ -30,9 +30,10 @@ theorem batch_merges_only_verified (acl : Acl) (L : Log) (logs : List (OMap × O
 
 /-- an announced head whose content does not hash to its claimed address aborts the `Sync`
 (ancestors are fetched *by* address, so theirs matches by content addressing — `HashDet`) -/
-theorem misaddressed_head_refused (acl : Acl) (heads : List Entry) (hok : syncPrecheck acl heads = .ok) :
-    ∀ h ∈ heads, acl.canAppend h = true → h.hashOk = true :=
-  C04_hash acl heads hok
+theorem misaddressed_head_refused (acl : Acl) (id : Nat) (heads : List Entry) (hok : syncPrecheck acl id heads = .ok) :
+    ∀ h ∈ heads, h.logId = id → h.sigOk = true → acl.canAppend h = true → h.hashOk = true := by
+  intro h hh hid hsig hca
+  exact C04_hash acl _ hok h (List.mem_filter.mpr ⟨hh, by simp [hid, hsig]⟩) hca
 
 /-- listing: every listed entry of a reachable replica is a member (so the three clauses above apply
 to the visible state) — needs the replicator's log-id filter, which `AReachable.joinOk` records -/
